@@ -208,7 +208,7 @@ def atoms(bodies, S=None):
 
 
 def _atoms(bodies, S):
-    out = {k: set() for k in ("call", "recv", "arg", "dec", "must", "mustq", "mustcall", "new", "fld", "set", "grd", "ord", "arm")}
+    out = {k: set() for k in ("call", "recv", "arg", "dec", "must", "mustq", "mustcall", "new", "fld", "set", "grd", "ord", "arm", "grdn")}
     for b in bodies:
         try:
             logb = FP.log_region(b)
@@ -352,6 +352,7 @@ def _atoms(bodies, S):
                     for bb_, nb in procs:
                         if ba != bb_ and na != nb and b.dominates(ba, bb_) and not b.dominates(bb_, ba):
                             out["ord"].add("%s < %s" % (na, nb))
+            grd_n = {}
             for blk_id, tid in targets:
                 gs = set()
                 for sw, rt, rf, core, is_match in guards:
@@ -362,7 +363,14 @@ def _atoms(bodies, S):
                         gs.add(core + " :T")
                     elif if_ and not it and not is_match:
                         gs.add(core + " :F")
-                out["grd"].add("%s <= %s" % (tid, json.dumps(sorted(gs))))
+                ga = "%s <= %s" % (tid, json.dumps(sorted(gs)))
+                out["grd"].add(ga)
+                grd_n[ga] = grd_n.get(ga, 0) + 1
+            # `grdn`: the same step under the same conditions at n >= 2 places of the function (two loops that each stage entries, two arms that
+            # each push): dropping one of them loses no presence fact
+            for ga, n in grd_n.items():
+                if n >= 2:
+                    out["grdn"].add("%s #%d" % (ga, n))
         except Exception:
             pass
         # ---- values built and fields assigned
